@@ -4,7 +4,7 @@
 # the tree afterwards.  Prints one line per check: exit code + verdict.
 # By default the patch is applied to /repo's working tree itself.  With MUT_ROOT=<dir> set, the
 # run happens in a scratch root instead: <dir>/repo is a git worktree of /repo's HEAD and
-# <dir>/verif a copy of /verif (without build output), so /repo and /verif stay untouched and
+# <dir>/verif a copy of /verif's committed HEAD, so /repo and /verif stay untouched and
 # development can go on in parallel; the harness's relative path dependency resolves inside <dir>.
 REV=""
 if [ "$1" = "-R" ]; then REV="-R"; shift; fi
@@ -16,7 +16,10 @@ if [ -n "$MUT_ROOT" ]; then
   if [ ! -d "$MUT_ROOT/repo" ]; then git -C /repo worktree add -f --detach "$MUT_ROOT/repo" HEAD >/dev/null 2>&1 || exit 2; fi
   git -C "$MUT_ROOT/repo" checkout -q --detach "$(git -C /repo rev-parse HEAD)" 2>/dev/null
   git -C "$MUT_ROOT/repo" checkout -- .
-  rsync -a --delete --exclude harness/target --exclude work --exclude .git --exclude replays/found --exclude evidence "$ROOT/" "$MUT_ROOT/verif/"
+  # the *committed* state of /verif (git archive HEAD), so that work in progress in the working
+  # directory cannot break a sensitivity run; build output lives in $MUT_ROOT/target
+  rm -rf "$MUT_ROOT/verif"; mkdir -p "$MUT_ROOT/verif"
+  git -C "$ROOT" archive HEAD | tar -x -C "$MUT_ROOT/verif" || exit 2
   REPO="$MUT_ROOT/repo"; ROOT="$MUT_ROOT/verif"
   export CARGO_TARGET_DIR="$MUT_ROOT/target"
 fi
